@@ -1,6 +1,6 @@
 //! C01 — aggregation law: tie `merge_results`/`add_results` to the Lean model and evaluate the
 //! property oracles on the implementation.
-use crate::common::*;
+use corrlib::*;
 use grcov::{merge_results, CovResult, Function};
 use serde_json::json;
 use std::sync::Mutex;
@@ -577,4 +577,8 @@ pub fn replay(rep: &mut Report, case: &serde_json::Value) {
         }
         _ => {}
     }
+}
+
+fn main() {
+    corrlib::run_main("C01", run, replay);
 }
